@@ -86,9 +86,9 @@ A_C04_ReadAfterEdit ==
              /\ LET sh == ShownElems(DocN(r)) IN
                 /\ \A i, j \in DOMAIN sh : i # j => sh[i] # sh[j]
                 /\ Range(sh) = UNION {Range(d.ord[k]) : k \in d.ks}
-A_C04_Idempotent ==     \* submitting the document the replica shows changes nothing
+A_C04_Idempotent ==     \* submitting the same document twice in a row changes nothing
     \A r \in Replica : \A d \in Docs :
-        Did("Edit", r) /\ act'.d = d /\ Doc(r).ok /\ Doc(r) = DocOf(d) /\ ~ArrConflict(r) => staged' = staged
+        Did("Edit", r) /\ act'.d = d /\ act.n = "Edit" /\ act.r = r /\ act.d = d => staged' = staged /\ sobjs' = sobjs
 
 A_C12_NoDocChange ==
     \A r \in Replica :
